@@ -21,6 +21,8 @@ import (
 	"strconv"
 )
 
+var opSet = "base"
+
 type mutant struct {
 	line   int
 	op     string
@@ -33,6 +35,7 @@ func main() {
 	list := flag.Bool("list", false, "list mutants")
 	n := flag.Int("n", -1, "mutant index")
 	out := flag.String("out", "", "output file")
+	flag.StringVar(&opSet, "ops", "base", "operator set: base (single-token changes, dropped statements) | order (adjacent statements swapped, Signal<->Broadcast, Lock<->RLock, go dropped)")
 	flag.Parse()
 	fset := token.NewFileSet()
 	f, err := parser.ParseFile(fset, *file, nil, parser.ParseComments)
@@ -89,6 +92,9 @@ func exprString(fset *token.FileSet, e ast.Node) string {
 }
 
 func enumerate(fset *token.FileSet, f *ast.File) []mutant {
+	if opSet == "order" {
+		return enumerateOrder(fset, f)
+	}
 	var ms []mutant
 	line := func(p token.Pos) int { return fset.Position(p).Line }
 	add := func(p token.Pos, op, detail string, apply func()) {
@@ -185,6 +191,68 @@ func enumerate(fset *token.FileSet, f *ast.File) []mutant {
 					x.Tok = token.INC
 				}
 			})
+		}
+		return true
+	})
+	return ms
+}
+
+// simple reports whether a statement is one of the plain statements whose order a maintainer may get wrong.
+func simple(st ast.Stmt) bool {
+	switch s := st.(type) {
+	case *ast.ExprStmt, *ast.IncDecStmt, *ast.SendStmt, *ast.GoStmt, *ast.DeferStmt:
+		return true
+	case *ast.AssignStmt:
+		return s.Tok != token.DEFINE
+	}
+	return false
+}
+
+// enumerateOrder: the second operator set - order and primitive mix-ups, the slips that only a schedule shows.
+func enumerateOrder(fset *token.FileSet, f *ast.File) []mutant {
+	var ms []mutant
+	line := func(p token.Pos) int { return fset.Position(p).Line }
+	add := func(p token.Pos, op, detail string, apply func()) {
+		ms = append(ms, mutant{line(p), op, detail, apply})
+	}
+	stmtList := func(list *[]ast.Stmt) {
+		for i := 0; i+1 < len(*list); i++ {
+			i := i
+			a, b := (*list)[i], (*list)[i+1]
+			if simple(a) && simple(b) {
+				add(a.Pos(), "swap-stmts", exprString(fset, a)+"  <->  "+exprString(fset, b), func() {
+					(*list)[i], (*list)[i+1] = (*list)[i+1], (*list)[i]
+				})
+			}
+		}
+		for i := range *list {
+			i := i
+			if g, ok := (*list)[i].(*ast.GoStmt); ok {
+				add(g.Pos(), "ungo", exprString(fset, g), func() { (*list)[i] = &ast.ExprStmt{X: g.Call} })
+			}
+		}
+	}
+	rename := map[string]string{"Signal": "Broadcast", "Broadcast": "Signal", "Lock": "RLock", "RLock": "Lock", "Unlock": "RUnlock", "RUnlock": "Unlock",
+		"PushBack": "PushFront", "PushFront": "PushBack", "Front": "Back", "Back": "Front"}
+	ast.Inspect(f, func(n ast.Node) bool {
+		switch x := n.(type) {
+		case *ast.GenDecl:
+			if x.Tok == token.CONST || x.Tok == token.IMPORT || x.Tok == token.TYPE {
+				return false
+			}
+		case *ast.BlockStmt:
+			stmtList(&x.List)
+		case *ast.CaseClause:
+			stmtList(&x.Body)
+		case *ast.CommClause:
+			stmtList(&x.Body)
+		case *ast.CallExpr:
+			if sel, ok := x.Fun.(*ast.SelectorExpr); ok {
+				if to, ok := rename[sel.Sel.Name]; ok {
+					from := sel.Sel.Name
+					add(sel.Sel.Pos(), "rename-call", fmt.Sprintf("%s -> %s in %s", from, to, exprString(fset, x)), func() { sel.Sel = ast.NewIdent(to) })
+				}
+			}
 		}
 		return true
 	})
